@@ -16,7 +16,7 @@ func init() {
 			"(R2) historyHub.remove and the TTL sweeper (expireStreams) only Clear streams (top and epoch survive) and only the meta-TTL sweeper (removeStreams) deletes a stream; sweepers re-validate the per-channel deadline before acting on a popped heap item; " +
 			"(R3) every historyHub field access holds the hub lock and MemoryBroker.Publish holds the channel's pubLock across historyHub.add and HandlePublication.",
 		NotDecided: "since/limit/reverse results of Stream.Get (value level), TTL timing.",
-		Rules: map[string]string{"C17.R1": "K4 who-may-write Stream.top/epoch", "C17.R2": "K4/K2: Clear vs Reset vs delete; stale-heap-item revalidation", "C17.R3": "K3 locksets"},
+		Rules: map[string]string{"C17.R1": "K4 who-may-write Stream.top/epoch", "C17.R2": "K4/K2: Clear vs Reset vs delete; stale-heap-item revalidation", "C17.R3": "K3 locksets", "C17.R4": "K2 pairing: heap push gated by absence in its deadline map"},
 		Run:   runC17,
 	})
 	register(&PropMeta{
@@ -36,7 +36,7 @@ func init() {
 		Explanation: "(R1) mapHub.add decides version before key mode before compare-and-swap; (R2) no return of mapHub.add / mapHub.remove with a non-empty suppress reason is preceded by a stream append or a state/score mutation (the RefreshTTLOnSuppress deadline refresh is the enumerated exception); " +
 			"(R3) the unsuppressed path appends at most once and only for stream-backed modes, and MemoryMapBroker.Publish/Remove broadcast and cache the result only when the reason is empty, with the position add/remove returned; (R4) add/remove/clear run under the channel's pubLock and then the hub lock.",
 		NotDecided: "fold semantics of the state (values), ordering of sorted keys (C21).",
-		Rules: map[string]string{"C20.R1": "K1 order of checks", "C20.R2": "K1: suppressed changes nothing", "C20.R3": "K2/K4: one append, broadcast only unsuppressed", "C20.R4": "K3 lock nesting"},
+		Rules: map[string]string{"C20.R1": "K1 order of checks", "C20.R2": "K1: suppressed changes nothing", "C20.R3": "K2/K4: one append, broadcast only unsuppressed", "C20.R4": "K3 lock nesting", "C20.R5": "paired fields: (Version, VersionEpoch) from one source"},
 		Run:   runC20,
 	})
 	register(&PropMeta{
@@ -150,6 +150,50 @@ func runC17(c *Ctx) {
 		}
 		checkHeapRevalidation(c, "C17.R2", fn)
 	}
+	// R4: a deadline map and its heap move together: outside the sweepers a heap push for a channel is
+	// conditional only on the absence of that channel in the *paired* deadline map (the sweeper deletes the
+	// map entry when it consumes the heap item; any other condition lets a live deadline go untracked)
+	pairs := map[string]string{"expireQueue": "expires", "removeQueue": "removes"}
+	for _, fname := range []string{"(*historyHub).add", "(*historyHub).getLocked"} {
+		fn := c.Fn("C17.R4", "centrifuge", fname)
+		if fn == nil {
+			continue
+		}
+		for _, p := range CallsIn(fn, false, w.calleeIs("heap.Push")) {
+			qd := D(p.Common().Args[0])
+			for q, m := range pairs {
+				if !strings.HasSuffix(qd, "historyHub."+q) {
+					continue
+				}
+				gs := Guards(p)
+				okG := false
+				for _, g := range gs {
+					d := D(g.Cond)
+					if !g.Pol && strings.HasPrefix(d, "ok(historyHub."+m+"[") {
+						okG = true
+					}
+				}
+				// no other non-trivial condition may gate the push
+				extra := ""
+				for _, g := range gs {
+					d := D(g.Cond)
+					if strings.HasPrefix(d, "ok(") && !strings.HasPrefix(d, "ok(historyHub."+m+"[") {
+						extra = d
+					}
+				}
+				c.Check("C17.R4", p, "push to "+q+" gated exactly by absence from "+m, okG && extra == "", "the TTL sweeper deletes the "+m+" entry when it consumes the heap item (the stream object survives a Clear); gating the re-push on anything else leaves later publications without an expiry ("+extra+")")
+				// and the map entry is written on every path (deadline refreshed)
+				wrote := false
+				for _, mu := range mapUpdatesOf(fn, false, "historyHub", m) {
+					if Reaches(p, mu) || Reaches(mu, p) || mu.Block() == p.Block() {
+						wrote = true
+					}
+				}
+				c.Check("C17.R4", p, m+" deadline stored next to the push", wrote, "heap item without a deadline entry is dropped by the sweeper")
+			}
+		}
+	}
+	c.Floor("C17.R4", 6)
 	// R3
 	n := 0
 	for _, f := range w.AllFuncs {
@@ -549,6 +593,35 @@ func runC20(c *Ctx) {
 		c.CheckAt("C20.R4", FuncName(fn)+": called with the channel's pubLock held", w.Pos(fn.Pos()), holdsContaining(held, "pubLock("), "state mutation, stream append and broadcast of one operation must be atomic per channel (entry lockset: "+held.String()+")")
 		locks := lockCalls(fn, "Lock", "mapHub.RWMutex")
 		c.CheckAt("C20.R4", FuncName(fn)+": takes the hub lock", w.Pos(fn.Pos()), len(locks) > 0, "hub state must be mutated under the hub lock")
+	}
+	// R5: (Version, VersionEpoch) is one value: wherever a state entry is built the two fields come
+	// from the same source (both from the options, or both carried over from the existing entry)
+	if add != nil {
+		var verVal, epochVal ssa.Value
+		var at ssa.Instruction
+		EachInstr(add, func(in ssa.Instruction) {
+			st, ok := in.(*ssa.Store)
+			if !ok {
+				return
+			}
+			fa, ok := st.Addr.(*ssa.FieldAddr)
+			if !ok {
+				return
+			}
+			if fieldAddrIs(fa, "stateEntry", "Version") {
+				verVal, at = st.Val, st
+			}
+			if fieldAddrIs(fa, "stateEntry", "VersionEpoch") {
+				epochVal = st.Val
+			}
+		})
+		if c.Anchor("C20.R5", "stores of stateEntry.Version / VersionEpoch in mapHub.add", verVal != nil && epochVal != nil) {
+			dv := strings.ReplaceAll(D(verVal), ".VersionEpoch", ".VE")
+			de := strings.ReplaceAll(D(epochVal), ".VersionEpoch", ".VE")
+			dv = strings.ReplaceAll(dv, ".Version", ".VE")
+			c.Check("C20.R5", at, "version and version epoch of a state entry come from the same source", dv == de,
+				"an unversioned publish must carry over the stored (version, epoch) pair: keeping the version but dropping its epoch lets a stale versioned publish of the original epoch through (sources: "+D(verVal)+" vs "+D(epochVal)+")")
+		}
 	}
 	// brokers: broadcast with the returned position
 	for _, b := range []struct{ fn, hub string }{{"(*MemoryMapBroker).Publish", "mapHub.add"}, {"(*MemoryMapBroker).Remove", "mapHub.remove"}} {
